@@ -1840,6 +1840,12 @@ func (s *Service) StartWithBackoff(ctx context.Context, rp *runnablePipeline) er
 		return nil
 	}
 
+	// A force stop accepted while the pipeline was waiting to be restarted found
+	// no live run to kill: it must still end the pipeline for good.
+	if rp.forceStopped.Load() {
+		return cerrors.FatalError(pipeline.ErrForceStop)
+	}
+
 	// If a graceful shutdown began while we waited, do not restart — finalize a
 	// system stop instead (invariant 7). Checked after the guard so a legitimate
 	// concurrent restart still wins.
